@@ -261,7 +261,8 @@ BC_MODES = ["series", "array", "list", "cross", "zip_series", "zip_array", "lser
             "lcross", "lzip_series", "lzip_array", "zip_series", "lzip_series"]
 FRAME_MODES = ("cross", "zip_series", "zip_array", "lcross", "lzip_series", "lzip_array")
 LOAD_MODES = ("lseries", "larray", "llist", "lcross", "lzip_series", "lzip_array")      # load(cycles): values are cycle numbers
-# open / fixed findings of the unchanged tree that this module classifies (see KNOWN_FINDINGS.jsonl)
+# findings recorded on the unchanged tree that this module classifies; both are fixed today (K_UNSIGNED by /repo commit
+# c9a3e4d, K_NOCURVE by 7867a83; see KNOWN_FINDINGS.jsonl)
 K_UNSIGNED = "load-unsigned-cycles-wraparound"
 K_NOCURVE = "cycles-label-without-curve-infinite-life"
 
@@ -319,7 +320,7 @@ class C08(Prop):
         "C08: the theorems are over the reals with Real.rpow / Real.log; the code's doubles agree with the same formulas in Float to rtol 1e-11 on this run's inputs; float overflow/underflow of ND*(L/SD)^(-k) (result inf or 0 with finite k) is not modelled by the real-number theorems",
         "C08: the literal 0.39015207303618954 is not exactly 1/(2*Phi^-1(0.9)): the TN/TS quantile theorems give the exact exponent 2*z90*c and the identity under the hypothesis 2*z90*c = 1; |2*ppf(0.9)*c - 1| < 1e-15 is checked numerically (scipy and driver), |c*c2 - 1| < 1e-16 for the two literals is proved in Lean",
         "C08: pandas glue (accessor copy, _validate, broadcast to Series/DataFrame, index alignment) is modelled as element-wise map / cross product / zip; alignment BY LABEL is computed by the harness (which value meets which curve) and the paired scalar evaluations are compared with the model and, in the oracle, with scalar calls of the real code; a curve without a value gives NaN; a value whose label has no curve must give NaN (repaired behaviour, finding cycles-label-without-curve-infinite-life)",
-        "C08: integer-typed loads / cycle numbers / curve fields mean the same numbers as floats (the oracle demands bit-equal results); unsigned cycle numbers into load() are a recorded defect (load-unsigned-cycles-wraparound): while it is open those inputs are judged by the oracle only, which tolerates exactly the reproduced defective value",
+        "C08: integer-typed loads / cycle numbers / curve fields mean the same numbers as floats (the oracle demands bit-equal results); unsigned cycle numbers into load() were a recorded defect (load-unsigned-cycles-wraparound, fixed by /repo commit c9a3e4d): the finding being fixed, those inputs go through the correspondence like every other input (only while the class has status open would they be judged by the oracle alone, which then tolerates exactly the reproduced defective value)",
         "C08: loads and cycle numbers are positive; for load <= 0 the code returns inf/NaN without raising (outside the theorems' guards)",
     ]
 
@@ -490,7 +491,7 @@ class C08(Prop):
             vals = " ".join(f2h(v) for v in case["vals"])
             mode = case["mode"]
             if self._bc_known_defect_input(case):
-                return []          # oracle only until the repair is in the tree (see K_UNSIGNED)
+                return []          # oracle only while K_UNSIGNED is open (it is fixed by c9a3e4d: never taken today)
             lines = []
             # the model's own broadcast functions (element-wise map / cross product / zip)
             if mode in ("series", "array", "list"):
@@ -545,9 +546,10 @@ class C08(Prop):
         return [float(v) for v in vals]
 
     def _bc_known_defect_input(self, case):
-        """unsigned cycle numbers into load(): a recorded defect of the unchanged tree (K_UNSIGNED).  While the finding is OPEN
-        these inputs are judged by the oracle only (it reproduces the defective computation and tolerates exactly that);
-        once KNOWN_FINDINGS.jsonl says `fixed` they run through the correspondence like every other input."""
+        """unsigned cycle numbers into load(): a recorded defect of the unchanged tree (K_UNSIGNED, fixed by /repo commit
+        c9a3e4d).  While the finding is OPEN these inputs are judged by the oracle only (it reproduces the defective
+        computation and tolerates exactly that); KNOWN_FINDINGS.jsonl says `fixed` today, so this returns False and they
+        run through the correspondence like every other input."""
         return self._unsigned_open and str(case.get("dtype", "")).startswith("uint") and case["mode"] in LOAD_MODES
 
     def _bc_raw(self, case, w, pf=None):
